@@ -1,4 +1,4 @@
-CONSTANTS MaxDepth = 3 Mode = "code"
+CONSTANTS MaxDepth = 3 Mode = "code" WideLast = FALSE
 INIT Init
 NEXT Next
 INVARIANT Laws
